@@ -209,6 +209,13 @@ func (g *G) bindingsPattern(c *pctx) interface{} {
 		default:
 			m[k] = g.pick([]string{"?v", "?w", "?"})
 		}
+		if k == "error" || k == "actionError" {
+			// error texts are normalised to one token in the model: a variable bound to one
+			// error text and re-matched against another would agree there and differ in Go
+			if s, is := m[k].(string); !is || s != "?" {
+				m[k] = "?"
+			}
+		}
 		if strings.HasPrefix(k, "?") {
 			break
 		}
